@@ -305,3 +305,122 @@ Section Reader.
     apply R; [cbn [length]; rewrite app_length; lia | left; reflexivity].
   Qed.
 End Reader.
+
+(* ------------------------------------------------------------------------------------------ totality *)
+Lemma safe_bind_ok {A B} (r : res A) (f : A -> res B) :
+  safe r -> (forall a, r = Ok a -> safe (f a)) -> safe (bind r f).
+Proof. intros Hr Hf. destruct r; cbn [bind]; try exact Hr. apply Hf. reflexivity. Qed.
+
+Lemma read_glyph_data_safe color : forall n s acc, (length s <= n)%nat -> safe (read_glyph_data color s acc).
+Proof.
+  induction n as [|n IH]; intros s acc H; destruct s as [|ch s']; try exact I; [cbn in H; lia|].
+  cbn [read_glyph_data]. destruct (ch =? 0); [exact I|]. cbn [length] in H.
+  destruct color.
+  - destruct (ch =? 13); [apply IH; lia|]. destruct s' as [|a s'']; [exact I|]. apply IH. cbn [length] in H. lia.
+  - apply IH. lia.
+Qed.
+
+Lemma read_glyph_safe color B data off : safe (read_glyph color B data off).
+Proof.
+  unfold read_glyph. destruct (off =? 65535); [exact I|]. destruct (B <=? off); [exact I|].
+  destruct (N.ltb_spec (lenN data) (off + 2)) as [H|H]; [exact I|].
+  remember (skipn (N.to_nat off) data) as s eqn:Es.
+  assert (L : (2 <= length s)%nat) by (subst s; rewrite skipn_length; unfold lenN in H; lia).
+  destruct s as [|w [|h s]]; cbn [length] in L; try lia.
+  apply safe_bind_ok; [apply (read_glyph_data_safe color (length s)); lia | intros; exact I].
+Qed.
+
+Lemma read_glyphs_safe color B data offs : safe (read_glyphs color B data offs).
+Proof.
+  induction offs as [|o t IH]; [exact I|]. cbn [read_glyphs].
+  apply safe_bind_ok; [apply read_glyph_safe|]. intros g _.
+  apply safe_bind_ok; [exact IH|]. intros; exact I.
+Qed.
+
+Lemma read_u16s_ok k : forall s, (2 * k <= length s)%nat ->
+  exists offs, read_u16s k s = Ok (offs, skipn (2 * k) s).
+Proof.
+  induction k as [|k IH]; intros s H; [exists []; reflexivity|].
+  destruct s as [|a [|b t]]; cbn [length] in H; try lia.
+  destruct (IH t) as (offs & E); [lia|].
+  exists (le16 [a; b] :: offs). cbn [read_u16s]. rewrite E. cbn [bind fst snd].
+  replace (2 * S k)%nat with (S (S (2 * k))) by lia. reflexivity.
+Qed.
+
+Section Total.
+  Variable lossy : list N -> list N.
+
+  Lemma read_font_safe s :
+    safe (read_font lossy s) /\ forall f s', read_font lossy s = Ok (f, s') -> (length s' < length s)%nat.
+  Proof.
+    unfold read_font. change (THE_DRAW_FONT_HEADER_SIZE - (lenN THE_DRAW_FONT_ID + 2)) with 213.
+    destruct (N.ltb_spec (lenN s) 213) as [H|H]; [split; [exact I | discriminate]|].
+    assert (L : (213 <= length s)%nat) by (unfold lenN in H; lia). clear H.
+    do 25 (destruct s as [|? s]; [cbn [length] in L; lia|]). cbn [length] in L.
+    cbn [take bind fst snd take1].
+    destruct (negb (le32 [n; n0; n1; n2] =? FONT_INDICATOR)); [split; [exact I | discriminate]|].
+    destruct (N.ltb_spec FONT_NAME_LEN n3) as [Hn|Hn]; [split; [exact I | discriminate]|].
+    rewrite take_ok by (cbn [length]; unfold FONT_NAME_LEN in Hn; lia). cbn [bind fst snd].
+    change (N.to_nat FONT_NAME_LEN) with 12%nat. cbn [take bind fst snd take1].
+    assert (Hty : (if n20 =? 0 then Ok Outline else if n20 =? 1 then Ok Block else if n20 =? 2 then Ok Color else Err E_TYPE)
+                  = Err E_TYPE \/ exists ty, (if n20 =? 0 then Ok Outline else if n20 =? 1 then Ok Block
+                                              else if n20 =? 2 then Ok Color else Err E_TYPE) = Ok ty).
+    { destruct (n20 =? 0); [right; eauto|]. destruct (n20 =? 1); [right; eauto|]. destruct (n20 =? 2); [right; eauto|]. left; reflexivity. }
+    destruct Hty as [-> | (ty & ->)]; [split; [exact I | discriminate]|]. cbn [bind].
+    destruct (MAX_LETTER_SPACE <? n21); [split; [exact I | discriminate]|].
+    change (N.to_nat CHAR_TABLE_SIZE) with 94%nat.
+    destruct (read_u16s_ok 94 s) as (offs & E); [lia|].
+    remember (skipn (2 * 94) s) as s2 eqn:Es2.
+    assert (Ls2 : (length s2 <= length s)%nat) by (subst s2; rewrite skipn_length; lia). clear Es2.
+    rewrite E. cbn [bind fst snd].
+    pose proof (read_glyphs_safe (is_color ty) (le16 [n22; n23]) s2 offs) as G.
+    destruct (read_glyphs (is_color ty) (le16 [n22; n23]) s2 offs) as [gl| | |]; cbn [bind];
+      try (split; [exact G | discriminate]).
+    split; [exact I|]. intros f s' Eq. injection Eq as <- <-. cbn [length].
+    rewrite skipn_length. lia.
+  Qed.
+
+  Lemma read_fonts_safe : forall fuel s acc, (length s < fuel)%nat -> safe (read_fonts lossy fuel s acc).
+  Proof.
+    induction fuel as [|k IH]; intros s acc H; [lia|].
+    cbn [read_fonts]. destruct s as [|c t]; [exact I|]. destruct (c =? 0); [exact I|].
+    destruct (read_font_safe (c :: t)) as [S1 S2].
+    destruct (read_font lossy (c :: t)) as [[f s']| | |]; cbn [bind]; try exact S1.
+    cbn [fst snd]. apply IH. specialize (S2 f s' eq_refl). lia.
+  Qed.
+
+  Lemma from_tdf_total_proof bytes : safe (from_tdf_bytes lossy bytes).
+  Proof.
+    unfold from_tdf_bytes.
+    destruct (N.ltb_spec (lenN bytes) THE_DRAW_FONT_HEADER_SIZE) as [H|H]; [exact I|].
+    assert (L : (233 <= length bytes)%nat) by (unfold lenN, THE_DRAW_FONT_HEADER_SIZE in H; lia). clear H.
+    destruct bytes as [|b0 bytes]; [cbn [length] in L; lia|]. cbn [take1 bind fst snd].
+    destruct (negb (b0 =? lenN THE_DRAW_FONT_ID + 1)); [exact I|].
+    rewrite take_ok by (change (length THE_DRAW_FONT_ID) with 18%nat; cbn [length] in L; lia).
+    cbn [bind fst snd].
+    destruct (negb (forallb _ _)); [exact I|].
+    change (length THE_DRAW_FONT_ID) with 18%nat.
+    remember (skipn 18 bytes) as r eqn:Er.
+    assert (Lr : (length r = length bytes - 18)%nat) by (subst r; apply skipn_length).
+    destruct r as [|z r]; [cbn [length] in *; lia|]. cbn [take1 bind fst snd].
+    destruct (negb (z =? CTRL_Z)); [exact I|].
+    apply read_fonts_safe. cbn [length] in *. lia.
+  Qed.
+End Total.
+
+(* ------------------------------------------------------------------------------------------ writer limit *)
+Lemma tdf_overflow_proof f :
+  lenN (t_name f) <= FONT_NAME_LEN -> (t_spaces f <= Z.of_N MAX_LETTER_SPACE)%Z ->
+  65535 < lenN (tbl_data (t_table f)) -> as_tdf_bytes f = Err E_DATA_OVERFLOW.
+Proof.
+  intros Hn Hs Hd. unfold as_tdf_bytes, add_font_data.
+  replace (FONT_NAME_LEN <? lenN (t_name f)) with false by (symmetry; apply N.ltb_ge; assumption).
+  replace (Z.of_N MAX_LETTER_SPACE <? t_spaces f)%Z with false by (symmetry; apply Z.ltb_ge; lia).
+  rewrite enc_table_snd.
+  replace (65535 <? lenN (tbl_data (t_table f))) with true by (symmetry; apply N.ltb_lt; assumption).
+  reflexivity.
+Qed.
+
+(* ------------------------------------------------------------------------------------------ samples *)
+Lemma wf_entries_none color k : Forall (wf_entry color) (repeat None k).
+Proof. apply Forall_forall. intros e He. apply repeat_spec in He. subst e. exact I. Qed.
